@@ -60,7 +60,9 @@ def impl_c17(case, scratch):
 
             ctx.analyze_templates(classify)
             marked = sorted(title_to_i[p.title] for p in ctx.get_all_pages([10]) if p.need_pre_expand)
-            runs.append({"marked": marked, "classified": sorted(calls)})
+            # the same marks as a lookup on this context reports them (what expand() consults)
+            looked = sorted(i for t, i in title_to_i.items() if (lambda pg: pg is not None and pg.need_pre_expand)(ctx.get_page(t, 10)))
+            runs.append({"marked": marked, "classified": sorted(calls), "looked_up": looked})
 
         store([i for i in range(n) if i not in phase2])
         analyze()
@@ -902,6 +904,10 @@ C09_MODULES.update({
               "require('Module:polyfill') return 'A2' .. tostring(table.size2) end\nreturn e",
     "boom": "local e = {}\nfunction e.main(frame) BOOM_G = 1 error('boom') end\nreturn e",
     "boomload": "BOOML_G = 1\nerror('boom while loading')",
+    # results that cannot be decoded as UTF-8 / are not strings
+    "badutf": "local e = {}\nfunction e.main(frame) BADUTF_G = 1 return string.char(255) .. string.char(200) end\n"
+              "function e.half(frame) return string.sub('\\195\\169cole', 1, 1) end\nfunction e.tbl(frame) return {1, 2} end\n"
+              "function e.num(frame) return 12.5 end\nfunction e.fn(frame) return function() end end\nreturn e",
     "probe2": "local e = {}\nfunction e.main(frame) return 'p2=' .. tostring(string.trim2) .. tostring(table.size2) .. tostring(mw.compat_loaded) end\nreturn e",
 })
 C09_TEMPLATES = dict(STD_TEMPLATES, **{"cnt": "{{#invoke:counter|main}}/{{#invoke:counter|main}}"})
